@@ -30,7 +30,7 @@ man = {
     "version": 1,
     "setup_cmd": "cd engine && GOFLAGS=-mod=mod GOPROXY=off GOSUMDB=off GOTOOLCHAIN=local go build -o ../bin/gosym .",
     "hooks": {"guard": "verif", "enable": "none needed: harnesses are injected as virtual files through go/packages Overlay and `go test -overlay`; /repo is never written", "baseline_off_cmd": "cd /repo && go test -vet=off -count=1 -timeout 25m ./...", "source_commits": [], "add_only": True},
-    "engines": [{"name": "gosym", "path": "engine/", "serves_properties": [c["property_id"] for c in checks], "kind_free_text": "own symbolic executor for go/ssa (x/tools v0.29.0): forking path exploration, SMT-LIB2 over a persistent z3 4.8.12 process per worker, native replay of every counterexample"}],
+    "engines": [{"name": "gosym", "path": "engine/", "serves_properties": [c["property_id"] for c in checks], "kind_free_text": "own symbolic executor for go/ssa (x/tools v0.29.0): forking path exploration, SMT-LIB2 over a persistent z3 5.1.0 (z3-new) process per worker, native replay of every counterexample"}],
     "checks": checks,
     "not_applicable": na,
     "notes": "Every check regenerates its encoding from /repo's working tree on each run. Exit 0 = held within the stated bounds; exit 1 + VIOLATION line = solver counterexample that reproduced natively and is not a listed known finding; exit 2 = inconclusive (engine abort, bound exceeded, solver unknown, replay mismatch) - never reported as success.",
